@@ -285,6 +285,7 @@ class FnFacts:
         self.calls = {}     # "method(p=d, …)" -> [CallSite]
         self.allcalls = {}  # "short callee(args)" -> [CallSite]
         self.constops = {}  # "Op const" -> [loc]
+        self.aggs = {}      # "Adt::Variant" -> [loc]
         bodies = [body] + (program.closures_of(body) if include_closures else [])
         self.bodies = bodies
         for b in bodies:
@@ -314,6 +315,10 @@ class FnFacts:
                     self.allcalls.setdefault("%s(%s)" % (nm, ", ".join(F.rd(a) for a in pargs)), []).append(cs)
             for (op, c, pos), locs in F.const_ops(b, O).items():
                 self.constops.setdefault("%s %d" % (op, c), []).extend(locs)
+            for bb, j, st in b.all_statements():
+                if st["k"] == "assign" and st["rv"]["k"] == "agg" and st["rv"].get("ak") == "adt":
+                    rv = st["rv"]
+                    self.aggs.setdefault("%s::%s" % (rv["adt"].split("::")[-1], rv["variant"]), []).append(span_loc(st["sp"]))
 
 
 class _All:
@@ -359,12 +364,19 @@ def fact_present(ff, fact):
         return spec in ff.constops
     if kind == "arg":
         return _arg_match(ff, spec)
+    if kind == "any":
+        rx = re.compile(spec)
+        return any(rx.search(k) for k in ff.allcalls)
+    if kind == "agg":
+        return spec in ff.aggs
     raise ValueError("bad table fact " + fact)
 
 
 def near_variants(fact):
     """the same fact with its last integer literal moved by +-1, +-2 (off-by-one detection)"""
     kind, spec = fact.split(":", 1)
+    if kind in ("any", "agg"):
+        return []
     ms = list(re.finditer(r"(?<![A-Za-z_$\d])-?\d+", spec))
     if kind == "cmp":
         ms = ms[-1:]   # the boundary
